@@ -19,6 +19,7 @@ impl<T: types::KeyDetails> types::KeyDetails for &T {
 }
 impl<T: Serialize> Serialize for &T {
     open spec fn ser(&self) -> Seq<u8> { (**self).ser() }
+    #[verifier::external_body] fn write_len(&self) -> (r: usize) { unimplemented!() }
 }
 
 //@trusted T4 SignatureConfig::v4 / v6 (config.rs:158/186): the config has exactly the given type and algorithms, empty subpacket areas, version V4 resp. V6 with a fresh salt
